@@ -45,6 +45,13 @@ def request_writers(run, F, E):
                            E.lv(n.e['obj'], fn) == {('core', 'request')})
             ok = len(asg) == 1
             if ok:
+                # a *whole-object* assignment: the assignment operator invoked is the one of the request's own (most derived) type,
+                # not of a base sub-object -- otherwise members of the outstanding request (payload flag, payload bytes) survive
+                cls = asg[0].e.get('cls') or ''
+                whole = cls.startswith('ffsm2::detail::TransitionT<')      # TransitionBase::operator= would copy the base sub-object only
+                if not whole:
+                    ok = False
+            if ok:
                 deps = c.control_deps(asg[0])
                 for b in deps:
                     txt = ir.pp(ir.strip(b.e)) if b.e else ''
@@ -61,6 +68,38 @@ def request_writers(run, F, E):
     lock_ctors = [fn.short for fn in F.fns for e in ir.all_exprs(fn) if e['k'] == 'ctor' and '::Lock' in (e.get('cls') or '')]
     run.ob('C02.a', 'the control lock is never taken (no Lock is constructed, no writer of _locked)', not lock_writers and not lock_ctors,
            detail=(lock_writers + lock_ctors)[:4] or None, key='something locks the control against requests')
+
+
+REQUEST_SLOT_WRITERS = {('FullControlBaseT', 'changeTo'), ('FullControlT', 'changeWith'), ('RP_', 'changeWith'), ('R_', 'changeTo'),
+                        ('R_', 'finalExit'), ('R_', 'initialEnter'), ('R_', 'load'), ('R_', 'processTransitions')}
+
+
+def request_slot_writers(run, F, E, rule='C02.g'):
+    """who may write the request slot: the four request writers (which replace it) and the places that consume / reset it (processing,
+    activation, deactivation, load). Nothing else -- in particular no other member of a control object handed to user code -- may
+    clear or alter an outstanding request (it would be lost without ever reaching processing). A helper of the root classes / of
+    namespace detail reached only from those functions is accepted."""
+    allowed = set(REQUEST_SLOT_WRITERS)
+    for root_name in ('processRequest', 'initialEnter'):
+        for root in F.find('R_', root_name):
+            for g, _ in anchors.substitution_loops(F, E, root):
+                allowed.add(tk_short(g))
+    for fn in F.fns:
+        direct = set()
+        for e in ir.all_exprs(fn):
+            if e['k'] == 'asg':
+                direct |= E.lv(e['l'], fn)
+        for e, g in E.call_sites(fn):
+            if e['k'] == 'call' and ir.is_expr(e.get('obj')) and (e.get('op') == '=' or e.get('m') in ('operator=', 'clear')):
+                direct |= E.lv(e['obj'], fn)
+        if not any(p[:2] == ('core', 'request') for p in direct):
+            continue
+        if fn.kind == 'ctor' and fn.tkey == 'ffsm2::detail::CoreT':
+            continue
+        ok = tk_short(fn) in allowed
+        if not ok and (anchors.is_internal_helper(F, fn) or (fn.cls is None and (fn.qn or '').startswith('ffsm2::detail::'))):
+            ok = not anchors.reached_only_from(F, E, fn, allowed) and bool(E.callers().get(fn.id))
+        run.ob(rule, '%s is an expected writer of the request slot' % fn.short, ok, where=fn.pat, key='%s writes the request slot' % fn.short)
 
 
 def requested_writers(run, F, E):
@@ -209,12 +248,14 @@ def run(run):
             E = effects.Effects(F)
             run.count('fact units')
             request_writers(run, F, E)
+            request_slot_writers(run, F, E)
             requested_writers(run, F, E)
             immediate(run, F, E)
             drop_condition(run, F)
             facts.drop(F)
             cfgmod.clear_cache()
     run.floor('C02.a', 60)
+    run.floor('C02.g', 30)
     run.floor('C02.b', 40)
     run.floor('C02.c', 8)
     run.floor('C02.d', 100)
